@@ -34,6 +34,11 @@ type Version struct {
 	Tags      map[string]string
 	Class     *string
 	Seq       int // write order
+	// CreatedSeq models the creation time of the row that holds this version in
+	// pithos: a null version overwritten in place keeps the creation time of the
+	// first null row; a completed upload keeps the time of CreateMultipartUpload.
+	// Used only by the known-finding mode PromoteByRowCreation.
+	CreatedSeq int
 }
 
 func (v *Version) Content() []byte {
@@ -144,6 +149,13 @@ type Model struct {
 	idSeq   int
 	// DontCareHits counts how often a don't-care decided an answer.
 	DontCareHits map[string]int
+	// PromoteByRowCreation switches the model to pithos' observed behaviour for
+	// known finding KF-C02-1: after a version-id delete of the current version the
+	// surviving version with the youngest *row* becomes current (instead of the
+	// most recently written one). PromotionDiffers counts how often that changed
+	// the outcome.
+	PromoteByRowCreation bool
+	PromotionDiffers     int
 }
 
 func New() *Model {
@@ -296,14 +308,22 @@ func (m *Model) checkWriteConditions(b *Bucket, c prog.Concrete) *prog.Expect {
 // install writes a new version according to the bucket's versioning state.
 func (m *Model) install(b *Bucket, key string, v *Version) string {
 	v.Seq = m.nextSeq()
+	rowCreated := v.CreatedSeq // preset by complete (row created at CreateMultipartUpload)
+	if rowCreated == 0 {
+		rowCreated = v.Seq
+	}
 	if b.Versioning == "Enabled" {
 		v.ID = m.newID()
 	} else {
 		v.ID = "null"
-		if idx, _ := b.find(key, "null"); idx >= 0 {
+		if idx, old := b.find(key, "null"); idx >= 0 {
+			if v.CreatedSeq == 0 {
+				rowCreated = old.CreatedSeq // row updated in place
+			}
 			b.remove(key, idx)
 		}
 	}
+	v.CreatedSeq = rowCreated
 	b.Keys[key] = append(b.Keys[key], v)
 	return v.ID
 }
@@ -497,10 +517,13 @@ func (m *Model) Do(c prog.Concrete) prog.Expect {
 		}
 		v.Parts = append(v.Parts, newPart(body))
 		// Unset/Suspended: stored as the new null version replacing only the null version.
-		m.install(b, c.Key, v)
+		id := m.install(b, c.Key, v)
 		r := ok()
 		r.ETag = v.ETag()
 		r.Size = v.Size()
+		// AppendObject returns no version id; the id is reported for the driver's
+		// bookkeeping only and never compared.
+		r.Version = id
 		r.SkipVersion = true
 		return r
 	case prog.OpMpuCreate:
@@ -593,10 +616,14 @@ func (m *Model) Do(c prog.Concrete) prog.Expect {
 			// pithos' documented restriction: any failure kind, state must stay
 			return prog.Expect{Result: prog.Result{Err: prog.EOther, Size: -1}, AnyFailure: true}
 		}
+		if len(nums) == 0 && c.Hint != "ok" {
+			// don't-care: completing an upload without parts (S3: MalformedXML; pithos:
+			// an empty object). A failure must leave the upload; a success is followed below.
+			m.DontCareHits["complete-without-parts"]++
+			return prog.Expect{Result: prog.Result{Err: prog.EOther, Size: -1}, AnyFailure: true}
+		}
 		if len(nums) == 0 {
-			// don't-care: completing an upload without parts (S3: MalformedXML); either
-			// a failure that leaves the upload, or an empty object. Not generated.
-			return prog.Expect{Result: prog.Result{Size: -1}, FailOrOK: true}
+			m.DontCareHits["complete-without-parts"]++
 		}
 		switch c.Manifest {
 		case "wrongEtag", "missing", "extra":
@@ -607,7 +634,7 @@ func (m *Model) Do(c prog.Concrete) prog.Expect {
 		if e := m.checkWriteConditions(b, c); e != nil {
 			return *e
 		}
-		v := &Version{Multipart: true, CkType: u.CkType, CT: u.CT, Meta: u.Meta.Clone(), Tags: cloneTags(u.Tags), Class: u.Class}
+		v := &Version{Multipart: true, CkType: u.CkType, CT: u.CT, Meta: u.Meta.Clone(), Tags: cloneTags(u.Tags), Class: u.Class, CreatedSeq: u.Seq}
 		for _, n := range nums {
 			v.Parts = append(v.Parts, u.Parts[n])
 		}
@@ -635,6 +662,9 @@ func (m *Model) Do(c prog.Concrete) prog.Expect {
 			dr := prog.DelResult{Key: e.Key, Deleted: x.Err == ""}
 			if x.Err != "" {
 				dr.ErrCode = x.Err
+			} else if e.VersionID == nil && x.DeleteMarker {
+				// a delete marker was created: report its id so the driver can map it
+				dr.Version, dr.DeleteMarker = x.Version, true
 			}
 			r.Entries = append(r.Entries, dr)
 		}
@@ -744,7 +774,25 @@ func (m *Model) deleteOne(b *Bucket, key string, ver *string, ifMatch *string) p
 		if ifMatch != nil && *ifMatch != "*" && (v.Marker || v.ETag() != *ifMatch) {
 			return failE(prog.EPrecondition)
 		}
+		wasCurrent := idx == len(b.Keys[key])-1
 		b.remove(key, idx)
+		if wasCurrent && len(b.Keys[key]) > 1 {
+			vs := b.Keys[key]
+			best := 0
+			for i := range vs {
+				if vs[i].CreatedSeq > vs[best].CreatedSeq {
+					best = i
+				}
+			}
+			if best != len(vs)-1 {
+				m.PromotionDiffers++
+				if m.PromoteByRowCreation {
+					p := vs[best]
+					vs = append(vs[:best:best], vs[best+1:]...)
+					b.Keys[key] = append(vs, p)
+				}
+			}
+		}
 		r := ok()
 		r.Version = v.ID
 		r.DeleteMarker = v.Marker
@@ -765,6 +813,7 @@ func (m *Model) deleteOne(b *Bucket, key string, ver *string, ifMatch *string) p
 			}
 		}
 		mk := &Version{ID: m.newID(), Marker: true, Seq: m.nextSeq()}
+		mk.CreatedSeq = mk.Seq
 		b.Keys[key] = append(b.Keys[key], mk)
 		r := ok()
 		r.Version = mk.ID
